@@ -120,8 +120,10 @@ LEVEL = {
                'debug_assert rewritten to an obligation).',
                'The dependency\'s byte wrapper is verified panic-free under its position invariant (unsafe blocks, unreachable_unchecked, '
                'debug_assert!, assert! all discharged). The cts *_b2b defaults are verified (unequal lengths and short messages rejected with '
-               'the output untouched). Buffered CFB: harness only (bounded). Key/IV slice '
-               'lengths and padded decryption are decided in crypto-common / cipher (assumed).'),
+               'the output untouched). The dependency\'s decrypt_padded{,_inout,_b2b} are verified: a length that is not a multiple of the block '
+               'size is an error and nothing is written. crypto-common\'s inner_iv_slice_init and KeyIvInit::new_from_slices (trait default and '
+               'the blanket impl for the modes) are verified: Ok iff the slices have the key / IV length. Buffered CFB: harness only (bounded). '
+               'The cipher\'s own KeyInit::new_from_slice is assumed (Ok iff key length).'),
     'C14': _lv('Front-ends are equal because they are proved equal to one shared spec function: OFB block step = keystream step (lemma), '
                'cts::cbc_enc/cbc_dec and the cbc crate against the same run(cbc step), CS1/CS2/CS3 on whole blocks (lemmas), buffered CFB on a '
                'whole block = block CFB step (lemma_cfb_buf_block).',
